@@ -112,7 +112,11 @@ class Controller:
         self.log.add("run_entry", self.base, sorted(self.entry_params.items()))
         ctl = self
         if self.meta["algo"] == "MCMC":
+            seen_ops = set()
             for op in algo._operators:
+                if id(op) in seen_ops:
+                    continue  # the same operator may be listed more than once
+                seen_ops.add(id(op))
                 orig = op.tune
 
                 def tune(*a, _orig=orig, **k):
